@@ -1144,6 +1144,7 @@ func runC16(c *Ctx, r *Rec) {
 		r.undecided("D3-extract", "collection.catalogClass.Extract", "", "not found")
 	}
 	checkParallelCursor(c, r, "D3-parallel-cursor", fileFuncs(c, "collection", ccls))
+	checkPooledEscape(c, r, "D4-pooled-objects-stay-home")
 	checkCellsNotShared(c, r, "D4-cells-not-shared")
 	r.floor("D4-pure", 3)
 	r.floor("D4-fresh", 3)
